@@ -266,9 +266,10 @@ Definition check_c04u (c : c04ucase) : bool :=
 
 (* stream 3: _increase_width called directly *)
 Record c04wcase := {
-  w_rows : list (list Q); w_wid : Z; w_target : Z; iw_rows : list (list Q); iw_wid : Z
+  w_rows : list (list Q); w_wid : Z; w_target : Z;
+  iw_exc : option string; iw_rows : list (list Q); iw_wid : Z      (* _increase_width never raises *)
 }.
 
 Definition check_c04w (c : c04wcase) : bool :=
   let m := increase_width 0%Q {| rows := w_rows c; wid := Z.to_nat (w_wid c) |} (w_target c) in
-  qmat_eqb (rows m) (iw_rows c) && Z.eqb (Z.of_nat (wid m)) (iw_wid c).
+  ostr_eqb None (iw_exc c) && qmat_eqb (rows m) (iw_rows c) && Z.eqb (Z.of_nat (wid m)) (iw_wid c).
